@@ -4,6 +4,7 @@ import (
 	"encoding/json"
 	"fmt"
 	"io"
+	"os"
 	"strings"
 
 	"github.com/semihalev/twig"
@@ -136,7 +137,7 @@ func genC03Program(r *R, ex map[string]bool) *Program {
 		return pick(r, maps)
 	}
 	seg := func() string {
-		switch r.N(27) {
+		switch r.N(28) {
 		case 0, 1:
 			return "{% for k, v in " + anyMap() + " %}{{ k }}={{ v|json_encode }}|{{ loop.index }};{% endfor %}"
 		case 2:
@@ -226,6 +227,15 @@ func genC03Program(r *R, ex map[string]bool) *Program {
 		case 26:
 			// a sandboxed include, and afterwards something the policy would not allow inside it
 			return "{% include 'sbpart' sandboxed %}{{ s1|striptags }}{{ '<i>x</i>'|striptags }}{% for k, v in m2 %}{{ k }}{% endfor %}"
+		case 27:
+			// helpers that might remember something from one call to the next: ONE spelling per program of things other
+			// programs spell slightly differently (pattern flags, format strings, separators)
+			return pick(r, []string{
+				"{{ 'Hello' matches " + pick(r, []string{"'/^h/'", "'/^h/i'"}) + " ? 'y' : 'n' }}{{ S1 matches " + pick(r, []string{"'/upper/'", "'/upper/i'"}) + " ? 'y' : 'n' }}",
+				"{{ 1234.5|number_format(" + pick(r, []string{"1, ',', '.'", "1, '.', ','", "2", "0"}) + ") }}",
+				"{{ d1|date(" + pick(r, []string{"'Y-m-d'", "'d/m/Y'", "'Y'"}) + ") }}{{ 'a,b;c'|split(" + pick(r, []string{"','", "';'"}) + ")|join('|') }}",
+				"{{ 'x%sy'|format(" + pick(r, []string{"'A'", "'b'"}) + ") }}{{ 'aXbxc'|replace(" + pick(r, []string{"'x', '-'", "'X', '-'"}) + ") }}",
+			})
 		case 22:
 			// the same name bound twice in one construct: which binding wins must be decided by the source text
 			return pick(r, []string{
@@ -370,6 +380,21 @@ func (propC03) Run(scI interface{}) *Outcome {
 		if i == 0 {
 			base = got
 			o.Probes["class_"+got.Class]++
+			// "… in the same or another process": a sample of the cases is also rendered by a real fresh process
+			// built from the uninstrumented tree (Go's own map order, no history at all)
+			if os.Getenv("VERIF_ONESHOT") != "" && sc.TwoLoaders == 0 && sc.Flood == 0 && (strHash(sc.Prog.Sources()[sc.Prog.Main])%12 == 0 || strings.Contains(sc.Prog.Sources()[sc.Prog.Main], " matches ")) {
+				if fresh, ok := runOneshot(&oneshotCase{Templates: sc.Prog.Sources(), Main: sc.Prog.Main, Ctx: sc.Prog.Ctx}); !ok {
+					o.Probes["fresh_process_could_not_run"]++
+				} else {
+					o.Probes["fresh_process_renders"]++
+					if fresh.Key() != base.Key() {
+						o.FP = fp
+						o.Viol = &Violation{Oracle: "fresh-process", Sig: "a fresh process renders the case differently",
+							Detail: fmt.Sprintf("template %q\n this process (after whatever it rendered before): %s\n fresh process (uninstrumented tree):            %s", sc.Prog.Sources()[sc.Prog.Main], base, fresh)}
+						return o
+					}
+				}
+			}
 			continue
 		}
 		o.Probes["environments_compared"]++
